@@ -51,9 +51,15 @@ def main():
         res["demo_passes_without"] = rc == 0
         if rc != 0:
             print("DEMO FAILS WITHOUT PATCH\n" + out[-1500:])
-        rc, out = sh("git init -q . 2>/dev/null; git apply --whitespace=nowarn %s" % os.path.join(mdir, "patch.diff"), d)
+        pfile = os.path.join(mdir, "patch.diff")
+        if os.path.exists(os.path.join(mdir, "patch_head.diff")):
+            # the same change ported by hand onto the current HEAD (a later fix:
+            # commit touched the lines the original patch changes)
+            pfile = os.path.join(mdir, "patch_head.diff")
+            res["ported_patch"] = True
+        rc, out = sh("git init -q . 2>/dev/null; git apply --whitespace=nowarn %s" % pfile, d)
         if rc != 0:
-            rc, out = sh("patch -p1 --no-backup-if-mismatch < %s" % os.path.join(mdir, "patch.diff"), d)
+            rc, out = sh("patch -p1 -F3 --no-backup-if-mismatch < %s" % pfile, d)
         res["patch_applies"] = rc == 0
         if rc != 0:
             print("PATCH DOES NOT APPLY TO CURRENT HEAD\n" + out[-1500:])
@@ -99,6 +105,8 @@ def main():
                     print("   ", l[:300])
                 return 0
             shutil.copy(os.path.join(mdir, "patch.diff"), sd)
+            if os.path.exists(os.path.join(mdir, "patch_head.diff")):
+                shutil.copy(os.path.join(mdir, "patch_head.diff"), sd)
             if is_dir:
                 shutil.copytree(demo_src, os.path.join(sd, os.path.basename(demo_src.rstrip("/"))), dirs_exist_ok=True)
             else:
